@@ -78,6 +78,7 @@ class Sim:
         self.memo = {}
         self.vad_discarded = set()
         self.vad_refined = set()
+        self.bad_faulted = []
 
     # -------------------------------------------------------------------------------------
     def violate(self, prop, cls, detail, **extra):
@@ -88,6 +89,21 @@ class Sim:
         v.update(extra)
         self.violations.append(v)
         self.log.add("violation", sig=sig, round=self.ctx.round, phase=self.ctx.phase)
+
+    def after_fault(self):
+        if self.bad_faulted:
+            b = self.bad_faulted[0]
+            return f":after-faulted-{b['kind']}-error[{b['status']}]"
+        return ""
+
+    def via(self, kind, first=None, second=None):
+        """Suffix naming a wrongly answered fault-forced predicate call of the current phase that
+        involves the given design (first / second argument of the predicate), if any."""
+        for b in self.bad_faulted:
+            if b["kind"] == kind and b["round"] == int(self.ctx.round) and b["phase"] == self.ctx.phase:
+                if (first is None or b["i"] == first) and (second is None or b["j"] == second):
+                    return f":via-faulted-{kind}[{b['status']}]"
+        return ""
 
     def judge(self, prop, polarity=None, n=1):
         self.decided[prop] += n
@@ -290,8 +306,9 @@ class Sim:
             self.faulted[(kind, i, j)] = True
         self.calls.append((kind, i, j, bool(res)))
         prop = {"is_dominated": "C09", "is_covered": "C10", "check_dominates": "C11"}[kind]
-        if prop not in self.props:
+        if prop not in self.props and not faulted:
             return
+        report = prop in self.props
         W = np.array(order.ordering_cone.W, dtype=float)
         s1, s2 = O.snapshot_region(r1), O.snapshot_region(r2)
         rect = isinstance(s1, O.Rect)
@@ -308,6 +325,12 @@ class Sim:
         d = O.decide(jd, *band)
         res = bool(res)
         tagk = ("rect" if rect else "ell") + (f":fallback[{self.ctx.last_status}]" if faulted else "")
+        if faulted and d is not None and d != res and kind != "check_dominates":
+            # a predicate forced onto the fallback solver answered wrongly: remember it, so that the
+            # transition / terminal monitors can attribute their consequences to it
+            self.bad_faulted.append({"kind": kind, "i": i, "j": j, "status": self.ctx.last_status, "said": res, "round": int(self.ctx.round), "phase": self.ctx.phase})
+        if not report:
+            return
         if d is None:
             self.undecided[prop] += 1
             return
@@ -483,11 +506,11 @@ class Sim:
             if i in must:
                 self.judge("C02", "must")
                 if i not in D_code:
-                    self.violate("C02", "certificate-ignored", {"i": i, "S0": sorted(S0), "U0": sorted(U0), "D_code": sorted(D_code)})
+                    self.violate("C02", "certificate-ignored" + self.via("is_dominated", first=i), {"i": i, "S0": sorted(S0), "U0": sorted(U0), "D_code": sorted(D_code)})
             elif i in mustnot:
                 self.judge("C02", "mustnot")
                 if i in D_code:
-                    self.violate("C02", "discard-without-certificate", {"i": i, "S0": sorted(S0), "U0": sorted(U0), "D_code": sorted(D_code)})
+                    self.violate("C02", "discard-without-certificate" + self.via("is_dominated", first=i), {"i": i, "S0": sorted(S0), "U0": sorted(U0), "D_code": sorted(D_code)})
         if D_code:
             self.ctx.probes["discard_happened"] += 1
 
@@ -549,11 +572,11 @@ class Sim:
             if i in must:
                 self.judge("C03", "enter")
                 if i not in N_code:
-                    self.violate("C03", "uncoverable-design-held-back", {"i": i, "S0": sorted(S0), "U0": sorted(U0), "P0": sorted(P0), "N_code": sorted(N_code)})
+                    self.violate("C03", "uncoverable-design-held-back" + self.via("is_covered", first=i), {"i": i, "S0": sorted(S0), "U0": sorted(U0), "P0": sorted(P0), "N_code": sorted(N_code)})
             elif i in mustnot:
                 self.judge("C03", "stay")
                 if i in N_code:
-                    self.violate("C03", "P-entry-while-coverable", {"i": i, "S0": sorted(S0), "U0": sorted(U0), "P0": sorted(P0), "N_code": sorted(N_code)})
+                    self.violate("C03", "P-entry-while-coverable" + self.via("is_covered", first=i), {"i": i, "S0": sorted(S0), "U0": sorted(U0), "P0": sorted(P0), "N_code": sorted(N_code)})
         if N_code:
             self.ctx.probes["P_entry_happened"] += 1
 
@@ -575,11 +598,11 @@ class Sim:
             if p in must:
                 self.judge("C03", "useful")
                 if p not in U:
-                    self.violate("C03", "useful-design-dropped", {"p": p, "U": sorted(U)})
+                    self.violate("C03", "useful-design-dropped" + self.via("is_covered", second=p), {"p": p, "U": sorted(U)})
             elif p in mustnot:
                 self.judge("C03", "useless")
                 if p in U:
-                    self.violate("C03", "useless-design-kept", {"p": p, "U": sorted(U)})
+                    self.violate("C03", "useless-design-kept" + self.via("is_covered", second=p), {"p": p, "U": sorted(U)})
         if U - pre["U"]:
             self.ctx.probes["U_readmits_design"] += 1
 
@@ -1044,10 +1067,10 @@ class Sim:
                 if i not in P:
                     best = max((O.cone_dominates_margin(W, mu[p], mu[i]) for p in P), default=-math.inf)
                     if best < -1e-9:
-                        self.violate("C01", "left-out-design-not-dominated-by-P", {"i": i, "P": sorted(P), "best_margin": best})
+                        self.violate("C01", "left-out-design-not-dominated-by-P" + self.after_fault(), {"i": i, "P": sorted(P), "best_margin": best})
             for p in sorted(P):
                 if gaps[p] > eps * (1 + 1e-9):
-                    self.violate("C01", "member-gap-exceeds-eps", {"p": p, "gap": float(gaps[p]), "eps": eps, "P": sorted(P)})
+                    self.violate("C01", "member-gap-exceeds-eps" + self.after_fault(), {"p": p, "gap": float(gaps[p]), "eps": eps, "P": sorted(P)})
                     self.ctx.probes["gap_over_eps"] += 1
             if any(eps * 0.8 < g <= eps for g in gaps[sorted(P)]) if P else False:
                 self.ctx.probes["near_eps_member_accepted"] += 1
@@ -1069,11 +1092,11 @@ class Sim:
                 if iso:
                     self.ctx.probes["isolated_design"] += 1
                     if i not in P:
-                        self.violate("C05", "isolated-optimum-lost", {"i": i, "P": sorted(P)})
+                        self.violate("C05", "isolated-optimum-lost" + self.after_fault(), {"i": i, "P": sorted(P)})
             for i in sorted(P):
                 for j in sorted(P):
                     if i != j and np.min(W @ (mu[j] - mu[i] - s)) > band:
-                        self.violate("C05", "member-dominated-by-member-beyond-slack", {"i": i, "j": j})
+                        self.violate("C05", "member-dominated-by-member-beyond-slack" + self.after_fault(), {"i": i, "j": j})
 
     # -------------------------------------------------------------------------------------
     def run(self):
